@@ -11,6 +11,26 @@ use std::io::{self, Write};
 /// Base struct for various kinds of code generator. The flavor of
 /// code generator is customized by supplying distinct types for `C`
 /// (e.g., `self::ascent::RecursiveAscent`).
+/// Renders `text` as a raw string literal. Three `#` are enough unless the text itself
+/// contains a `"` followed by three or more `#`; then one more than the longest such run
+/// is used.
+pub fn raw_string_literal(text: &str) -> String {
+    let mut hashes = 3;
+    let mut run = None;
+    for c in text.chars() {
+        run = match (c, run) {
+            ('"', _) => Some(0),
+            ('#', Some(n)) => {
+                hashes = hashes.max(n + 2);
+                Some(n + 1)
+            }
+            _ => None,
+        };
+    }
+    let hashes = "#".repeat(hashes);
+    format!("r{hashes}\"{text}\"{hashes}")
+}
+
 pub struct CodeGenerator<'codegen, 'grammar, W: Write, C> {
     /// the complete grammar
     pub grammar: &'grammar Grammar,
